@@ -83,7 +83,7 @@ func (Prop) Describe(t vp.Tier) vp.Description {
 			"{resume, resume with arguments, close, status of coroutine j, yield from main, running}, each with coroutine.create and with coroutine.wrap, plus PRNG scripts with 3 coroutines and up to 6 steps per body; every step emits what it observed and the "+
 			"event sequence must equal the reference's. Stage programs: generated coroutine-heavy programs. Stages race-*: slices of both on -race builds (data races, checkptr) under GOMAXPROCS in {1,2,4,16} with delays injected at the hand-off points "+
 			"(yield / sleep after the send in Thread.end, at every point); the hooks assert that no Lua instruction or Go function runs in a thread other than the owner of the baton. After every case: no dead coroutine may still own a goroutine "+
-			"(start/exit hook events, polled <= 200 ms). A batch that does not finish is a deadlock only if the SIGQUIT dump shows no running/runnable goroutine. "+
+			"(start/exit hook events, polled for up to 5 s: a goroutine that is merely slow to exit on a loaded host is not a leak). A batch that does not finish is a deadlock only if the SIGQUIT dump shows no running/runnable goroutine. "+
 			"Stage callbacks: a coroutine yields from inside a callback (sort comparator, gsub function, metamethod handlers, load reader, iterator, protected calls) with a <close> variable pending, then is closed or resumed to its end: invariants that hold whatever the construct does (dead after close, handler exactly once, nothing runs afterwards, return value delivered once). " +
 			"Non-trivial: >= 2 coroutine hand-offs (resume/yield/close) in the reference run; distinct by program text.", len(allScripts(t))),
 		Assumptions: []string{
@@ -120,11 +120,11 @@ func (Prop) RunBatch(c *vp.Child) {
 		if !gl.HooksEnabled {
 			return
 		}
-		n, _, _ := gl.DeadThreadsWithGoroutine(200)
+		n, _, _ := gl.DeadThreadsWithGoroutine(5000)
 		leakChecks++
 		if n > 0 {
 			leaked += int64(n)
-			c.Violation("goroutine-leak", "dead coroutine still owns a goroutine", fmt.Sprintf("%d dead coroutine(s) whose goroutine has not exited 200 ms after the case ended", n), "")
+			c.Violation("goroutine-leak", "dead coroutine still owns a goroutine", fmt.Sprintf("%d dead coroutine(s) whose goroutine has not exited 5000 polls (>= 5 s) after the case ended", n), "")
 		}
 		gl.ForgetThreads()
 	}
